@@ -352,6 +352,10 @@ func (in *Interp) resetPath(prefix []dec) {
 	in.preempts = 0
 	in.hashUF = false
 	in.vnow = 0
+	in.lockHist = nil
+	in.eagerSmallRem = true
+	in.inPure = false
+	in.pureTabs = map[string][]*Term{}
 	in.lockTrace = false
 	in.raceCheck = false
 	in.clockForce = nil
